@@ -171,6 +171,14 @@ pub(super) fn __add2(a: &mut [BigDigit], b: &[BigDigit]) -> BigDigit {
     #[cfg(not(any(target_arch = "x86", target_arch = "x86_64")))]
     let (c, done) = (false, 0);
 
+    #[cfg(num_bigint_verif)]
+    crate::verif_probe::add(crate::verif_probe::Probe::ADD_ASM_BLOCKS, (done / 5) as u64);
+    #[cfg(num_bigint_verif)]
+    if c {
+        crate::verif_probe::hit(crate::verif_probe::Probe::ADD_CARRY_AFTER_ASM);
+    }
+    #[cfg(num_bigint_verif)]
+    crate::verif_probe::add(crate::verif_probe::Probe::ADD_TAIL, (b.len() - done) as u64);
     let mut carry = c as u8;
 
     for (a, b) in a_lo[done..].iter_mut().zip(b[done..].iter()) {
@@ -180,6 +188,8 @@ pub(super) fn __add2(a: &mut [BigDigit], b: &[BigDigit]) -> BigDigit {
     if carry != 0 {
         for a in a_hi {
             carry = adc(carry, *a, 0, a);
+            #[cfg(num_bigint_verif)]
+            crate::verif_probe::hit(crate::verif_probe::Probe::ADD_PROPAGATE);
             if carry == 0 {
                 break;
             }
@@ -216,6 +226,8 @@ impl AddAssign<&BigUint> for BigUint {
     fn add_assign(&mut self, other: &BigUint) {
         let self_len = self.data.len();
         let carry = if self_len < other.data.len() {
+            #[cfg(num_bigint_verif)]
+            crate::verif_probe::hit(crate::verif_probe::Probe::ADDASSIGN_SHORTER_SELF);
             let lo_carry = __add2(&mut self.data[..], &other.data[..self_len]);
             self.data.extend_from_slice(&other.data[self_len..]);
             __add2(&mut self.data[self_len..], &[lo_carry])
@@ -223,6 +235,8 @@ impl AddAssign<&BigUint> for BigUint {
             __add2(&mut self.data[..], &other.data[..])
         };
         if carry != 0 {
+            #[cfg(num_bigint_verif)]
+            crate::verif_probe::hit(crate::verif_probe::Probe::ADD_PUSH);
             self.data.push(carry);
         }
     }
